@@ -32,9 +32,9 @@ ASSUMPTIONS = ['secrets.randbelow is uniform and independent (the harness replac
 CFGS = [(3, 1, False), (3, 1, True), (5, 2, False), (5, 2, True), (4, 1, True), (5, 1, False)]
 
 
-def check_run(ctx, name, m, t, no_prss, seed, lines, exps, metas):
+def check_run(ctx, name, m, t, no_prss, seed, lines, exps, metas, t_initial=None):
     prog = programs.PROGRAMS[name][0]()
-    net = SimNet(m, t, no_prss=no_prss, seed=seed, sched=Scheduler(seed, 'random'), max_steps=2_000_000)
+    net = SimNet(m, t, no_prss=no_prss, seed=seed, sched=Scheduler(seed, 'random'), max_steps=2_000_000, t_initial=t_initial)
     try:
         with sharemon.ShareMonitor(net, record_results=False) as mon:
             net.run(prog)
@@ -124,6 +124,18 @@ def run(ctx):
                 if msg:
                     ctx.violation('C14: ' + msg, {'kind': 'deal', 'program': name, 'm': m, 't': t, 'no_prss': no_prss, 'seed': seed})
                     return
+    # the program assigns mpc.threshold after the runtime was created with another threshold (PRSS on and off): every dealing
+    # must use the CURRENT threshold
+    for (m, t, no_prss, t0) in [(3, 1, True, 0), (5, 2, True, 1), (3, 1, False, 0), (5, 1, True, 2)] + \
+            ([(4, 1, True, 0), (5, 2, False, 0), (7, 3, True, 1)] if ctx.thorough else []):
+        for name in ('arith', 'fxp'):
+            seed = rng.randrange(10**9)
+            msg = check_run(ctx, name, m, t, no_prss, seed, lines, exps, metas, t_initial=t0)
+            ctx.count('program:threshold-reassigned')
+            if msg:
+                ctx.violation('C14: ' + msg, {'kind': 'deal', 'program': name, 'm': m, 't': t, 'no_prss': no_prss, 'seed': seed,
+                                              't_initial': t0})
+                return
     model = common.LeanDriver('Share').run(lines)
     ctx.compare('dealt columns (independent interpolation vs MpycV.Share.consistentB, degree t and t-1)', exps, model, metas)
 
@@ -144,5 +156,6 @@ def search(ctx):
 
 def replay(ctx, data):
     ctx._max_lines = 0
-    msg = check_run(ctx, data['program'], data['m'], data['t'], data['no_prss'], data['seed'], [], [], [])
+    msg = check_run(ctx, data['program'], data['m'], data['t'], data['no_prss'], data['seed'], [], [], [],
+                    t_initial=data.get('t_initial'))
     return msg is None, msg or 'ok'
